@@ -32,6 +32,16 @@ class Scripted(System):
         self.world.ran(self)
 
 
+class EqScripted(Scripted):
+    """system objects with VALUE equality (two systems are equal when their ids are): the scheduler must go by identity"""
+
+    def __eq__(self, other):
+        return isinstance(other, System) and other.id == self.id
+
+    def __hash__(self):
+        return hash(self.id)
+
+
 class FalsyScripted(Scripted):
     """falsy system objects (a __len__ returning 0, like the library's own Agent) must be scheduled like any other"""
 
@@ -50,6 +60,7 @@ class World:
         self.nontrivial = False
         self.labels = set()
         self.free_ids = []       # ids of removed systems, reusable by a *new* object
+        self.eq_systems = bool(case.get("eq"))
         for p in case["systems"]:
             self.register(int(p) % 4, event=False)
         n0 = len(self.all)
@@ -63,7 +74,7 @@ class World:
 
     def register(self, prio, event=True, sid=None):
         tok = len(self.all)
-        s = (FalsyScripted if tok % 3 == 2 else Scripted)(sid or f"sys{tok}", self.model, prio, self, tok)
+        s = (FalsyScripted if tok % 3 == 2 else (EqScripted if self.eq_systems else Scripted))(sid or f"sys{tok}", self.model, prio, self, tok)
         self.all.append(s)
         self.model.systems.add_system(s)
         self.seq += 1
@@ -164,7 +175,7 @@ def strategy(tier):
                                     "actions": st.lists(_action(), min_size=1, max_size=3)})
     return st.fixed_dictionaries({"systems": st.lists(st.integers(0, 2), min_size=2, max_size=6),
                                   "scripts": st.lists(script, min_size=1, max_size=3),
-                                  "steps": st.integers(3, 5)})
+                                  "steps": st.integers(3, 5), "eq": st.booleans()})
 
 
 def exhaustive(tier):
